@@ -147,3 +147,52 @@ Example C17_example_rmq :
     query Z.leb t 2 3 = QVal 4%Z /\ query Z.leb t 5 5 = QNone /\ query Z.leb t 6 2 = QNone /\
     query Z.leb t 6 9 = QErr.
 Proof. eexists. split; [vm_compute; reflexivity|]. vm_compute. repeat split. Qed.
+
+(** * Tie to the source by translation (range_min_query.py)
+
+    [Gen/RmqGen.v] is regenerated from utils/range_min_query.py on every run (translator/pyfun.py,
+    translator/rmq_gen.py); the generated constructor and query equal the hand-written model for all
+    inputs, error cases included ([leb_of ltb a b = negb (ltb b a)]: Python's [min] keeps its first
+    argument unless the second is strictly smaller). *)
+
+From SR Require Import Gen.RmqGen Proofs.RmqGenProofs.
+
+Theorem C17_gen_rmq_ilog2_eq :
+  forall m : N, m <> 0%N -> G.gen__ilog2 (Z.of_N m) = G.Ok (Z.of_nat (ilog2 (N.to_nat m))).
+Proof. exact @gen_rmq_ilog2_eq. Qed.
+Print Assumptions C17_gen_rmq_ilog2_eq.
+
+Theorem C17_gen_rmq_init_eq :
+  forall (A : Type) (ltb : A -> A -> bool) (data : list A),
+       G.gen_rmq_init ltb data =
+       match build (leb_of ltb) data with
+       | Some t => G.Ok {| G.rmq_sparse_table := t |}
+       | None => G.Err G.IndexError
+       end.
+Proof. exact @gen_rmq_init_eq. Qed.
+Print Assumptions C17_gen_rmq_init_eq.
+
+Theorem C17_gen_rmq_query_eq :
+  forall (A : Type) (ltb : A -> A -> bool) (t : table) (start stop : N),
+       qres_of (G.gen_rmq_query ltb {| G.rmq_sparse_table := t |} start stop) =
+       query (leb_of ltb) t (N.to_nat start) (N.to_nat stop) /\
+       (forall (s' : G.rmq_state) (r : option A),
+        G.gen_rmq_query ltb {| G.rmq_sparse_table := t |} start stop = G.Ok (s', r) ->
+        s' = {| G.rmq_sparse_table := t |}).
+Proof. exact @gen_rmq_query_eq. Qed.
+Print Assumptions C17_gen_rmq_query_eq.
+
+Theorem C17_gen_rmq_correct :
+  forall (A : Type) (ltb : A -> A -> bool),
+       (forall x y z : A, leb_of ltb x y = true -> leb_of ltb y z = true -> leb_of ltb x z = true) ->
+       (forall x y : A, leb_of ltb x y = true \/ leb_of ltb y x = true) ->
+       forall (data : list A) (i j : N),
+       (i < j)%N ->
+       N.to_nat j <= length data ->
+       exists (s : G.rmq_state) (m : A),
+         G.gen_rmq_init ltb data = G.Ok s /\
+         G.gen_rmq_query ltb s i j = G.Ok (s, Some m) /\
+         is_min_of (leb_of ltb) data (N.to_nat i) (N.to_nat j) m.
+Proof. exact @gen_rmq_correct. Qed.
+Print Assumptions C17_gen_rmq_correct.
+
